@@ -199,13 +199,45 @@ structure Digest where
   enc  : Enc
   deriving DecidableEq, Repr
 
+def isCont (b : UInt8) : Bool := 0x80 ≤ b && b ≤ 0xBF
+
+/-- what Go's strings.ToUpper / ToLower do to bytes that are not valid UTF-8: each such byte becomes U+FFFD (EF BF BD).
+    Valid multi-byte sequences are kept as they are (their Unicode case mapping is not modelled: a digest value that
+    contains one is not decodable in either case). `fuel` ≥ length. -/
+def utf8Repair : Nat → Bytes → Bytes
+  | 0, l => l
+  | _ + 1, [] => []
+  | fuel + 1, b0 :: rest =>
+    if b0 < 0x80 then b0 :: utf8Repair fuel rest
+    else
+      match rest with
+      | b1 :: r1 =>
+        if 0xC2 ≤ b0 && b0 ≤ 0xDF && isCont b1 then b0 :: b1 :: utf8Repair fuel r1
+        else
+          match r1 with
+          | b2 :: r2 =>
+            if ((b0 == 0xE0 && 0xA0 ≤ b1 && b1 ≤ 0xBF) || (0xE1 ≤ b0 && b0 ≤ 0xEC && isCont b1) || (b0 == 0xED && 0x80 ≤ b1 && b1 ≤ 0x9F) ||
+                (0xEE ≤ b0 && b0 ≤ 0xEF && isCont b1)) && isCont b2 then b0 :: b1 :: b2 :: utf8Repair fuel r2
+            else
+              match r2 with
+              | b3 :: r3 =>
+                if ((b0 == 0xF0 && 0x90 ≤ b1 && b1 ≤ 0xBF) || (0xF1 ≤ b0 && b0 ≤ 0xF3 && isCont b1) || (b0 == 0xF4 && 0x80 ≤ b1 && b1 ≤ 0x8F)) &&
+                    isCont b2 && isCont b3 then b0 :: b1 :: b2 :: b3 :: utf8Repair fuel r3
+                else 0xEF :: 0xBF :: 0xBD :: utf8Repair fuel rest
+              | [] => 0xEF :: 0xBF :: 0xBD :: utf8Repair fuel rest
+          | [] => 0xEF :: 0xBF :: 0xBD :: utf8Repair fuel rest
+      | [] => [0xEF, 0xBF, 0xBD]
+
 /-- newDigest; `none` = "unsupported digest algorithm" -/
 def newDigest (s : Bytes) (dflt : Enc) : Option Digest :=
   let algRaw := match splitFirst COLON s with | some (a, _) => a | none => s
   let hash0 := match splitFirst COLON s with | some (_, h) => h | none => []
   let algorithm := normalizeAlg algRaw
   let enc := detectEncoding algorithm hash0 dflt
-  let hash := match enc with | .b16 => lowerAscii hash0 | .b32 => upperAscii hash0 | _ => hash0
+  let hash := match enc with
+    | .b16 => utf8Repair hash0.length (lowerAscii hash0)
+    | .b32 => utf8Repair hash0.length (upperAscii hash0)
+    | _ => hash0
   if algorithm.isEmpty then some ⟨.sha1, bs "sha1", hash, enc⟩
   else match algOfName algorithm with
     | some a => some ⟨a, algorithm, hash, enc⟩
